@@ -158,6 +158,7 @@ COMMENT_DIRECTED = [
     'sub f { { { { /* deep */ } } /* up */ } }',
     '} } /* negative nest */ { ',
     'sub f(STRING p /* c */ , INTEGER q) { }',
+    'sub f { if (a) { } /* e0 */ else /* g */ if (b) { }\n // l\n else\n // m\n if (c) { } elseif /* n */ (d) { } }',
     'table u STRING { "a": "b",\n/* c7 */\n{"c"}: d }',
     'sub f { set req.http.A = g(x /* c */ , y); g(x) /* c */ ; call g /* c */ (); }',
 ]
@@ -329,17 +330,31 @@ def run(ctx):
         d = rng.randint(0, maxd)
         depth_hist[d] = depth_hist.get(d, 0) + 1
         toks, sexp, _ = eg.expression(d)
-        cases.append(("expr", eg.render(toks).encode(), "gen-expr-d%d" % d, sexp, True, True))
+        eg.eol = rng.choice([None, None, None, "\r\n", "\r", "mixed"])       # line-end style of the whole source
+        cases.append(("expr", eg.render(toks).encode(), "gen-expr-d%d%s" % (d, "-eol" if eg.eol else ""), sexp, True, True))
+        eg.eol = None
     # literal length / precision: every length up to well beyond the precision limit (independent exact conversion)
     n_lit = 40000 if thorough else 3000
     for label, text, sexp in parsegen.literal_length_cases(rng, n_lit) + parsegen.long_string_cases(rng):
         cases.append(("expr", text.encode(), label, sexp if sexp is not None else "ERR", True, sexp is not None))
+    # literal content x line-end style: CR / LF / CRLF / lone CR / tabs / C0 controls / multi-byte runes at the start, middle
+    # and end of every literal form, in every string position of the grammar, sources in LF / CRLF / CR / mixed line ends;
+    # the oracle is the generator's intended value byte for byte
+    n_le = 0
+    for label, text, sexp in parsegen.line_end_expr_cases(rng, 400 if thorough else 60):
+        cases.append(("expr", text.encode(), label, sexp, True, True))
+        n_le += 1
+    for label, text, sexp in parsegen.line_end_program_cases(rng, 3000 if thorough else 250):
+        cases.append(("vcl", text.encode(), label, sexp, True, True))
+        n_le += 1
     # parser state across nesting and sequence: compound constructs nested in each other, names from small pools
     pg = parsegen.ProgGen(rng, eg)
     n_nest = 20000 if thorough else 1200
     for i in range(n_nest):
         toks, sexp = pg.program(rng.choice([2, 3, 3, 4]))
-        cases.append(("vcl", eg.render(toks).encode(), "gen-nested-%d" % i, "0 " + sexp, True, True))
+        eg.eol = rng.choice([None, None, None, "\r\n", "\r", "mixed"])
+        cases.append(("vcl", eg.render(toks).encode(), "gen-nested-%d%s" % (i, "-eol" if eg.eol else ""), "0 " + sexp, True, True))
+        eg.eol = None
     for j, src in enumerate(pg.nested_switch_shapes()):
         cases.append(("vcl", src.encode(), "nested-switch-%d" % j, None, False, True))
     n_pairs = 0
@@ -554,7 +569,7 @@ def run(ctx):
         "float_nodes_checked_against_exact_conversion": st["float_nodes"], "int_nodes_checked": st["int_nodes"],
         "nested_program_stats": dict(sorted(pg.stats.items())),
         "seconds_in_go_parser": round(st["impl_s"], 1), "seconds_in_extracted_model": round(st["model_s"], 1),
-        "operator_pair_cases": n_pairs, "operator_pairs_exhaustive": True,
+        "line_end_literal_cases": n_le, "operator_pair_cases": n_pairs, "operator_pairs_exhaustive": True,
         "expression_depth_histogram": dict(sorted(depth_hist.items())),
         "comment_sources": st["c_src"], "comment_streams_agree": st["c_agree"], "comments_in_those_sources": st["c_comments"],
         "comment_max_nest": st["c_maxnest"], "comment_nonzero_empty_line_counts": st["c_pel"],
